@@ -1123,3 +1123,64 @@ Proof.
   - apply pwb_pure_sound. assumption.
   - intros (Hf & ->). apply pwb_pure_complete. assumption.
 Qed.
+
+(* ================= G. waveform_at ================= *)
+
+Lemma parse_blocks_nth req : forall n d k, (k < n)%nat ->
+  nth_error (parse_blocks req n d) k = Some (subN d (spw req * N.of_nat k + 2) req).
+Proof.
+  induction n as [|n IH]; intros d k Hk; [lia|].
+  destruct k as [|k]; cbn [parse_blocks nth_error].
+  - change (N.of_nat 0) with 0. rewrite N.mul_0_r. reflexivity.
+  - rewrite IH by lia. rewrite subN_dropN. do 2 f_equal. rewrite Nat2N.inj_succ. lia.
+Qed.
+
+Lemma blocks_words_lenN req : forall cs ws, length ws = length cs -> Forall (fun w => lenN w = req) ws ->
+  lenN (blocks_words req cs ws) = spw req * lenN cs.
+Proof.
+  induction cs as [|c ct IH]; intros ws Hl Hw.
+  - rewrite (@lenN_nil chan). cbn [blocks_words]. rewrite lenN_nil. lia.
+  - destruct ws as [|w wt]; [discriminate|]. cbn [length] in Hl. inversion Hw; subst.
+    cbn [blocks_words]. rewrite lenN_app, block_words_lenN, IH, lenN_cons by (lia || assumption || reflexivity). lia.
+Qed.
+
+Lemma chans_ok_length cs : chans_ok cs -> lenN cs <= 79.
+Proof. intros H. rewrite <- (mask_chan_list_chans_mask cs H). apply mask_chan_list_length. Qed.
+
+Theorem waveform_at_block_lemma macs m f c : pwb_fields_ok macs f -> In c (p_sent f) ->
+  exists k w, nth_error (p_sent f) k = Some c /\ nth_error (pwb_waves f) k = Some w /\
+              waveform_at m f c = Ok (Some w) /\ lenN w = p_req f.
+Proof.
+  intros (_ & _ & _ & _ & _ & _ & _ & _ & Hreq & Hsent & _ & _ & _ & _ & _ & Hws & Hdata) Hin.
+  destruct (position c (p_sent f)) as [kN|] eqn:Hpos; [|apply position_None in Hpos; contradiction].
+  pose proof (position_nth _ _ _ Hpos) as Hnth. pose proof (position_lt _ _ _ Hpos) as Hlt.
+  pose proof (chans_ok_length _ Hsent) as Hn.
+  set (req := p_req f) in *. set (sent := p_sent f) in *. set (data := p_data f) in *.
+  assert (Lws : length (pwb_waves f) = length sent) by apply parse_blocks_length.
+  assert (Hwl : Forall (fun w => lenN w = req) (pwb_waves f)).
+  { rewrite Forall_forall in *. intros w Hw. apply Hws. assumption. }
+  assert (Ld : lenN data = spw req * lenN sent + 2).
+  { rewrite Hdata. unfold pwb_words. rewrite lenN_app, blocks_words_lenN by assumption. reflexivity. }
+  set (S := spw req) in *.
+  assert (HS : 2 + req <= S /\ S <= 514) by (unfold S, spw; lia).
+  assert (H1 : S * kN <= 514 * 79) by (apply N.mul_le_mono; lia).
+  assert (H2 : S * kN + S <= S * lenN sent).
+  { pose proof (N.mul_le_mono_l (kN + 1) (lenN sent) S ltac:(lia)). lia. }
+  exists (N.to_nat kN), (subN data (S * kN + 2) req).
+  split; [exact Hnth|]. split; [|split].
+  - unfold pwb_waves. fold req sent data. rewrite parse_blocks_nth by (unfold lenN in Hlt; lia).
+    rewrite N2Nat.id. reflexivity.
+  - unfold waveform_at. fold sent. rewrite Hpos. fold req data.
+    assert (Hspc : (if req mod 2 =? 0 then uadd m 64 2 req else do a <- uadd m 64 2 req; uadd m 64 a 1) = Ok S).
+    { unfold S, spw. destruct (N.eqb_spec (req mod 2) 0) as [Ev|Od];
+        repeat (rewrite uadd_ok by (change (2^64) with 18446744073709551616; lia); cbn [bind]); f_equal; lia. }
+    rewrite Hspc. cbn [bind].
+    rewrite umul_ok by (change (2^64) with 18446744073709551616; lia). cbn [bind].
+    rewrite uadd_ok by (change (2^64) with 18446744073709551616; lia). cbn [bind].
+    rewrite slice_from_ok by lia. cbn [bind].
+    rewrite slice_to_ok by (rewrite dropN_length; lia). reflexivity.
+  - apply subN_length. lia.
+Qed.
+
+Theorem waveform_absent_lemma m f c : ~ In c (p_sent f) -> waveform_at m f c = Ok None.
+Proof. intros H. apply position_None in H. unfold waveform_at. rewrite H. reflexivity. Qed.
